@@ -35,7 +35,8 @@ pub fn check(c: &Case) -> Outcome {
     let evs = vec![EvSpec { g: Ev::Const { v: 1.0 }, dir: 0, terminal: None }];
     let max_step = c.max_step.map(|f| f * len);
     let cap = max_step.unwrap_or(f64::INFINITY).min(0.9 * len);
-    let mut first_step = c.first_step.map(|f| f * cap);
+    // (a factor >= 2 encodes "exactly the span", the largest admissible value, when max_step does not forbid it)
+    let mut first_step = c.first_step.map(|f| if f >= 2.0 { len.min(max_step.unwrap_or(f64::INFINITY)) } else { f * cap });
     if c.method == Meth::RK4 {
         // RK4: first_step is the fixed step; keep the step count bounded
         first_step = first_step.map(|h| h.max(len / 400.0) * d);
@@ -103,14 +104,16 @@ pub fn check(c: &Case) -> Outcome {
             let upto = log.ev_at_odeidx[1];
             let maxoff = log.ode_t[..upto].iter().fold(0.0f64, |m, &t| m.max((t - sp.x0).abs()));
             let tol = 4.0 * ulp(sp.x0.abs() + h0) + 4.0 * ulp(h0);
-            if (maxoff - h0).abs() > tol {
+            // (a trial step within 1 % of the end of the interval is stretched to land on it)
+            let lands = (maxoff - len).abs() <= tol && len <= 1.01 * h0 * (1.0 + 1e-12);
+            if (maxoff - h0).abs() > tol && !lands {
                 return Outcome::viol(format!(
                     "{}: first_step={:e} but the largest time offset evaluated before the first accepted step is {:e} (first trial step is not first_step; max_step={:?})",
                     desc, h0, maxoff, max_step
                 ));
             }
             let first_int = (steps[1] - steps[0]).abs();
-            if first_int > h0 + tol {
+            if first_int > h0 + tol && !((first_int - len).abs() <= tol && len <= 1.01 * h0 * (1.0 + 1e-12)) {
                 return Outcome::viol(format!("{}: first accepted step {:e} is longer than first_step {:e}", desc, first_int, h0));
             }
             if (first_int - h0).abs() <= tol {
@@ -187,7 +190,7 @@ pub fn strategy() -> BoxedStrategy<Case> {
         any_method(),
         tols(5, 3.0, 8.0),
         proptest::option::weighted(0.75, log10(-3.0, 0.5)),
-        proptest::option::weighted(0.6, log10(-2.0, 0.0)),
+        proptest::option::weighted(0.6, prop_oneof![12 => log10(-2.0, 0.0).boxed(), 1 => Just(2.0).boxed()]),
         proptest::option::weighted(0.5, 1usize..300),
         any::<bool>(),
     )
@@ -230,7 +233,7 @@ pub fn run(ctx: &Ctx, known: &[Known]) -> Report {
     let stats = run_generated(ctx, "C11", "gen", &strategy, &check, cases, known);
     Report {
         id: "C11".into(),
-        rule: "cases = slowly varying closed-form problems (intrinsic duration 0.05..2, so the controller wants long steps) x spans x six methods x tolerances x max_step = span*10^U[-3,0.5] x first_step <= min(max_step, 0.9 span) x max_steps in 1..300. The accepted-step sequence comes from one events() call per accepted step; the first trial step from the recorded times of the right-hand-side calls; the budgeted run is compared with its unbudgeted twin. Non-trivial = the max_step clamp was active (an accepted step within 1% of max_step), or the first-trial check ran, or the budget ran out. Distinct = distinct canonical JSON.".into(),
+        rule: "cases = slowly varying closed-form problems (intrinsic duration 0.05..2, so the controller wants long steps) x spans x six methods x tolerances x max_step = span*10^U[-3,0.5] x first_step <= min(max_step, 0.9 span) or exactly the span x max_steps in 1..300. The accepted-step sequence comes from one events() call per accepted step; the first trial step from the recorded times of the right-hand-side calls; the budgeted run is compared with its unbudgeted twin. Non-trivial = the max_step clamp was active (an accepted step within 1% of max_step), or the first-trial check ran, or the budget ran out. Distinct = distinct canonical JSON.".into(),
         assumptions: vec![
             "max_step bound asserted with relative slack 1e-12 and 4 ulp of the time; the final step may be 1% longer (documented stretch)".into(),
             "NeedLargerNMax is required only when the unbudgeted run needs more than max_steps+1 steps and forbidden when it needs at most max_steps (the solvers differ by one in where they test the budget)".into(),
